@@ -2,6 +2,8 @@ package main
 
 import (
 	"math"
+	"math/big"
+	mrand "math/rand"
 	"math/rand/v2"
 	"strconv"
 	"strings"
@@ -261,3 +263,123 @@ func decimalLiteral(r rng, maxDigits int) string {
 	}
 	return b.String()
 }
+
+// ---------------------------------------------------------------------------
+// Constructed divisions: dividend and divisor built so that the long-division
+// code meets the situations random operands practically never produce -
+// quotient digits of base-1, estimates that are one too large (add-back),
+// intermediate remainders with a zero top word followed by a large word, exact
+// divisions, remainders of v-1.
+
+func wordsToBig(w []uint64) *big.Int {
+	z := new(big.Int)
+	b := new(big.Int).SetUint64(wordBase)
+	for i := len(w) - 1; i >= 0; i-- {
+		z.Mul(z, b)
+		z.Add(z, new(big.Int).SetUint64(w[i]))
+	}
+	return z
+}
+
+func bigToWords(x *big.Int) []uint64 {
+	var w []uint64
+	b := new(big.Int).SetUint64(wordBase)
+	t := new(big.Int).Set(x)
+	r := new(big.Int)
+	for t.Sign() > 0 {
+		t.QuoRem(t, b, r)
+		w = append(w, r.Uint64())
+	}
+	return w
+}
+
+// genDivision returns (dividend words, divisor words) with n divisor words and a
+// quotient of about m words. Both are normalised the way VarSpec needs them
+// (non-zero top word; buildVar normalises the leading digit itself).
+func (r rng) genDivision(n, m int) (u, v []uint64) {
+	v = r.genWords(n, r.pick(0, 1, 3, 4, 5, 5))
+	if r.chance(0.5) {
+		v[n-1] = wordBase/2 + uint64(r.intn(9)) // no scaling needed by Knuth D
+	}
+	if n > 1 && r.chance(0.4) {
+		v[n-2] = r.pick64(0, wordBase-1, v[n-1])
+	}
+	V := wordsToBig(v)
+	base := new(big.Int).SetUint64(wordBase)
+	acc := new(big.Int) // running value: the dividend built so far
+	blocks := 1 + r.intn(3)
+	for b := 0; b < blocks; b++ {
+		// quotient part for this block
+		ql := 1 + r.intn(m/blocks+1)
+		q := r.genWords(ql, r.pick(0, 1, 3, 4))
+		if r.chance(0.4) {
+			q[r.intn(ql)] = wordBase - 1
+		}
+		// remainder pattern (< V)
+		var R *big.Int
+		switch r.intn(6) {
+		case 0:
+			R = new(big.Int)
+		case 1:
+			R = new(big.Int).Sub(V, big.NewInt(1))
+		case 2, 3:
+			// zero top word, then a word >= the divisor's top word
+			rw := r.genWords(n, 4)
+			rw[n-1] = 0
+			if n > 1 {
+				rw[n-2] = r.pick64(wordBase-1, v[n-1], v[n-1]+1)
+				if rw[n-2] >= wordBase {
+					rw[n-2] = wordBase - 1
+				}
+			}
+			R = wordsToBig(rw)
+		default:
+			R = new(big.Int).Rand(randFor(r), V)
+		}
+		if R.Cmp(V) >= 0 {
+			R.Mod(R, V)
+		}
+		// acc = (acc * base^len + q) ... the previous remainder is carried into this block
+		shift := new(big.Int).Exp(base, big.NewInt(int64(ql)), nil)
+		acc.Mul(acc, shift)
+		acc.Add(acc, new(big.Int).Mul(wordsToBig(q), big.NewInt(1)))
+		// dividend so far = acc*V + R is formed at the end of the block chain
+		if b == blocks-1 {
+			acc.Mul(acc, V)
+			acc.Add(acc, R)
+		} else {
+			// fold the remainder in by making the next block's quotient continue from it:
+			// (acc*V + R) * base^k + low  ==> keep as explicit value
+			acc.Mul(acc, V)
+			acc.Add(acc, R)
+			k := r.pick(n/2, n/2+1, n, n-1, 1)
+			if k < 1 {
+				k = 1
+			}
+			low := wordsToBig(r.genWords(k, r.pick(0, 3, 4)))
+			acc.Mul(acc, new(big.Int).Exp(base, big.NewInt(int64(k)), nil))
+			acc.Add(acc, low)
+			// next iteration multiplies acc by V again; to keep the construction a plain
+			// integer we stop treating acc as a quotient: finish here
+			u = bigToWords(acc)
+			if len(u) == 0 {
+				u = []uint64{1}
+			}
+			return u, v
+		}
+	}
+	u = bigToWords(acc)
+	if len(u) == 0 {
+		u = []uint64{1}
+	}
+	return u, v
+}
+
+func (r rng) pick64(xs ...uint64) uint64 { return xs[r.intn(len(xs))] }
+
+type rngSrc struct{ r rng }
+
+func (s rngSrc) Int63() int64 { return int64(s.r.Uint64() >> 1) }
+func (s rngSrc) Seed(int64)   {}
+
+func randFor(r rng) *mrand.Rand { return mrand.New(rngSrc{r}) }
